@@ -5,6 +5,8 @@ import copy as _copy
 import os
 import warnings
 
+from typing import Any
+
 import numpy as np
 
 from simkit.engine import Engine, jhash
@@ -16,10 +18,27 @@ from flodym import (Dimension, DimensionSet, FlodymArray, StockArray, Parameter,
                     ParameterDefinition, make_processes, make_empty_flows, make_empty_stocks)
 from flodym.lifetime_models import (LifetimeModel, FixedLifetime, NormalLifetime, FoldedNormalLifetime, LogNormalLifetime, WeibullLifetime)
 
+class DelayedFixedLifetime(FixedLifetime):
+    """a user's own lifetime model, written the documented way: a subclass of a built-in model with one more parameter (years in
+    storage before use), `prms` extended, `set_prms` calling the parent's first and then storing its own"""
+    delay: Any = None
+
+    @property
+    def prms(self):
+        return {"mean": self.mean, "delay": self.delay}
+
+    def set_prms(self, mean, delay):
+        super().set_prms(mean)
+        self.delay = self.cast_any_to_np_array(delay)
+
+    def _survival_by_year_id(self, t, m):
+        return (t < self.mean[m, ...] + self.delay[m, ...]).astype(int)
+
+
 LT = {"fixed": FixedLifetime, "normal": NormalLifetime, "folded": FoldedNormalLifetime, "lognormal": LogNormalLifetime,
-      "weibull": WeibullLifetime}
+      "weibull": WeibullLifetime, "delayed": DelayedFixedLifetime}
 PRM_NAMES = {"fixed": ["mean"], "normal": ["mean", "std"], "folded": ["mean", "std"], "lognormal": ["mean", "std"],
-             "weibull": ["weibull_shape", "weibull_scale"]}
+             "weibull": ["weibull_shape", "weibull_scale"], "delayed": ["mean", "delay"]}
 CLS = {"simple": SimpleFlowDrivenStock, "inflow": InflowDrivenDSM, "stockdriven": StockDrivenDSM}
 
 
@@ -313,7 +332,7 @@ class StockSim(Engine):
 
     def _prm_kwargs(self, st, lt_name, specs, bad=None):
         names = PRM_NAMES[lt_name]
-        ranges = {"mean": (1.0, 8.0), "std": (0.5, 2.5), "weibull_shape": (0.8, 3.0), "weibull_scale": (1.0, 8.0)}
+        ranges = {"mean": (1.0, 8.0), "std": (0.5, 2.5), "weibull_shape": (0.8, 3.0), "weibull_scale": (1.0, 8.0), "delay": (0.0, 3.0)}
         kw = {}
         for n, spec in zip(names, specs):
             lo, hi = ranges[n]
@@ -388,7 +407,7 @@ class StockSim(Engine):
         for pd_ in d.parameters:
             ds = dims.get_subset(pd_.dim_letters)
             if params_from is None:
-                base = {"mean": 4.0, "std": 1.5, "weibull_shape": 2.0, "weibull_scale": 4.0, "driver": 1.0}[pd_.name.rsplit("_", 1)[0]]
+                base = {"mean": 4.0, "std": 1.5, "weibull_shape": 2.0, "weibull_scale": 4.0, "driver": 1.0, "delay": 1.0}[pd_.name.rsplit("_", 1)[0]]
                 base = base + 0.5 * int(pd_.name.rsplit("_", 1)[1])  # every stock starts with its own parameter values
                 vals = np.full(ds.shape, base)
             else:
@@ -688,7 +707,7 @@ class StockSim(Engine):
         if op["op"] == "set_param":
             name = names[op["which"] % len(names)]
             p = sys_.parameters[name]
-            ranges = {"mean": (1.0, 8.0), "std": (0.5, 2.5), "weibull_shape": (0.8, 3.0), "weibull_scale": (1.0, 8.0), "driver": (0.5, 10.0)}
+            ranges = {"mean": (1.0, 8.0), "std": (0.5, 2.5), "weibull_shape": (0.8, 3.0), "weibull_scale": (1.0, 8.0), "driver": (0.5, 10.0), "delay": (0.0, 3.0)}
             lo, hi = ranges[name.rsplit("_", 1)[0]]
             rs = np.random.RandomState(op["vseed"] % 2 ** 31)
             vals = np.round(rs.uniform(lo, hi, size=p.values.shape), 3)
